@@ -66,8 +66,10 @@ func checkC20(c c20Case, rec *Rec) *Violation {
 	if c.CSP {
 		hdr.Set("Content-Security-Policy", "default-src 'self'")
 	}
-	hdr.Set("Content-Length", fmt.Sprint(len(wire)))
-	declared := c.Length
+	if c.Length >= 0 {
+		hdr.Set("Content-Length", fmt.Sprint(len(wire)))
+	}
+	declared := c.Length // -1: the upstream response declares no length (chunked)
 	if declared == 0 {
 		declared = int64(len(wire))
 	}
@@ -243,6 +245,8 @@ func genC20(t *rapid.T) c20Case {
 	c := c20Case{Body: body, Gzip: chance(t, "gzip", 4), CSP: chance(t, "csp", 4)}
 	if chance(t, "stale-length", 4) {
 		c.Length = int64(rapid.IntRange(1, 100000).Draw(t, "declared-length"))
+	} else if chance(t, "no-declared-length", 4) {
+		c.Length = -1
 	}
 	return c
 }
